@@ -142,6 +142,46 @@ def deframe(pn, raw, reqid=1):
     return out
 
 
+def keepalive_header_isolation(S, rnd, windex, cnt, res):
+    """on one kept-alive HTTP connection: a request whose response carries a cookie and a header, then requests served in raw /
+    asynchronous_raw mode whose application writes no header block, an unterminated one, or a complete one: every response must carry
+    only what ITS application set ('exactly one header block carrying every header and cookie the application set')"""
+    for variant in range(windex % 3, 6, 3):
+        is_async = variant >= 3
+        app = b"/awriter" if is_async else b"/writer"
+        mode = 4 if is_async else 2
+        secret = b"secret-%d-%d" % (windex, variant)
+        first = proto.Req(method=b"GET", script=rnd.choice([b"/writer", b"/awriter"]), query=b"s=c%s.%s,h%s.%s,w10.1&tok=HA%d" % (b"sid".hex().encode(), secret.hex().encode(), b"X-Private".hex().encode(), secret.hex().encode(), variant), token=b"HA%d" % variant)
+        lit = [b"", b"X-Unfinished: 1\r\n", b"Content-Type: text/plain\r\nX-Own: mine\r\n\r\nBODY"][variant % 3]
+        script = b"m%d" % mode + (b",L" + lit.hex().encode() if lit else b"")
+        second = proto.Req(method=b"GET", script=app, query=b"s=" + script + b"&tok=HB%d" % variant, token=b"HB%d" % variant)
+        c = srv.Conn(S, "http", timeout=10)
+        try:
+            c.send(proto.http_encode(first, version=b"1.1", keep_alive=True))
+            m1, closed = c.recv_until(srv.http_message_length, timeout=10)
+            d1 = proto.http_parse_response(m1)
+            if d1["status"] != 200 or secret not in m1:
+                res["viol"].append({"key": "harness:keepalive-header-isolation-setup", "detail": repr(m1[:200]), "replay": None})
+                return
+            if closed:
+                cnt("header_isolation_connection_not_kept")
+                continue
+            c.send(proto.http_encode(second, version=b"1.1", keep_alive=False))
+            m2, _ = c.recv_all(6)
+        finally:
+            c.close()
+        cnt("header_isolation_pairs")
+        if secret in m2 or b"X-Private" in m2:
+            res["viol"].append({"key": "c03:response-carries-headers-of-the-previous-request-on-the-connection", "detail": "second request (io mode %d, application wrote %r) answered with %r" % (mode, lit[:30], m2[:300]),
+                                "replay": {"first": first.query.decode(), "second": second.query.decode()}})
+            return
+        if variant % 3 == 2:
+            d2 = proto.http_parse_response(m2)
+            if d2["status"] != 200 or d2["body"] != b"BODY" or d2["hd"].get(b"x-own") != [b"mine"]:
+                res["viol"].append({"key": "c03:raw-mode-response-differs-from-what-the-application-wrote", "detail": repr(m2[:300]), "replay": {"second": second.query.decode()}})
+                return
+
+
 def worker(args):
     basedir, exe, seed, ncases, windex = args
     rnd = random.Random(seed)
@@ -152,6 +192,7 @@ def worker(args):
     S = None
     try:
         S = srv.Server(basedir, exe, "srv%d" % windex)
+        keepalive_header_isolation(S, rnd, windex, cnt, res)
         for ci in range(ncases):
             if res["viol"]:
                 break
